@@ -31,6 +31,13 @@ matrix (`edge_list()` = coordinates of the non-zeros, both orientations), 0 else
 def admittance (adj : Adj) (res : Mat) : Mat :=
   fun i j => if adj i j then 1 / res i j else 0
 
+/-- `__init__` without `adjacency=`: `adjacency = np.zeros(...); adjacency[resistances != 0] = 1`
+— the links are the non-zero pattern of the resistance matrix -/
+def defaultAdj (res : Mat) : Adj := fun i j => res i j != 0
+
+/-- the resistance matrix restricted to the links (what `update_admittance` reads of it) -/
+def maskRes (adj : Adj) (res : Mat) : Mat := fun i j => if adj i j then res i j else 0
+
 /-- every linked pair has a non-zero resistance (otherwise NumPy produces `inf`) -/
 def resistancesOk (n : Nat) (adj : Adj) (res : Mat) : Bool :=
   (List.range n).all fun i => (List.range n).all fun j => !adj i j || res i j != 0
@@ -169,6 +176,10 @@ def State.reassign (s : State) (n' : Nat) (adj' : Adj) : State := { s with n := 
 def State.init (pinv : Nat → Mat → LMat) (n : Nat) (adj : Adj) (res : Mat) : State :=
   State.update pinv { n := n, adj := adj, res := res, adm := fun _ _ => 0,
                       R := fun _ _ => 0, store := none } res
+
+/-- `ResNetwork(resistances)`: the links are derived from the resistances -/
+def State.initDefault (pinv : Nat → Mat → LMat) (n : Nat) (res : Mat) : State :=
+  State.init pinv n (defaultAdj res) res
 
 /-- one call; the second component is the returned value (`none`: no value / exception) -/
 def step (pinv : Nat → Mat → LMat) (s : State) : Op → State × Option Rat
